@@ -15,6 +15,17 @@
 #define OLD(x) __CPROVER_old(x)
 #define RET __CPROVER_return_value
 
+/* C05 in terms of the model: a failed call has undone every write it stepped and nothing else - the enclosing transaction (if any) is still open with exactly
+ * the writes it had, nothing became durable, the savepoints that were open are still there with their marks (a call may leave a no-op savepoint of its own on
+ * top after ROLLBACK TO; it vanishes with the enclosing transaction).  Void only if SQLite itself refused a ROLLBACK / ROLLBACK TO (I/O failure). */
+#define SQL_UNCHANGED_BY_FAILED_CALL (g_undo_failed || (g_durable_writes == OLD(g_durable_writes) && g_tx_open == OLD(g_tx_open) && g_tx_writes == OLD(g_tx_writes) \
+    && g_lost_writes - OLD(g_lost_writes) == g_write_steps - OLD(g_write_steps) && g_sp_depth >= OLD(g_sp_depth) \
+    && (OLD(g_sp_depth) < 1 || g_sp_mark[0] == OLD(g_sp_mark[0])) && (OLD(g_sp_depth) < 2 || g_sp_mark[1] == OLD(g_sp_mark[1]))))
+/* a successful call inside a transaction leaves the bracket structure as it found it and loses nothing */
+#define SQL_NESTED_SUCCESS (g_tx_open == OLD(g_tx_open) && g_sp_depth == OLD(g_sp_depth) && g_lost_writes == OLD(g_lost_writes) && g_durable_writes == OLD(g_durable_writes) \
+    && g_tx_writes - OLD(g_tx_writes) == g_write_steps - OLD(g_write_steps))
+#define SQL_ENTRY (SQL_WF && g_sp_depth <= 2 && !g_undo_failed && g_tx_writes < 1000 && g_write_steps < 1000 && g_lost_writes < 1000 && g_durable_writes < 1000)
+
 int g_cat_kind;      /* ghost input: what cif_loop_get_category reports: 0 = error, 1 = scalar loop (""), 2 = other, 3 = NULL category */
 #define ITER_OK(it) (__CPROVER_rw_ok(it, sizeof(*(it))) && (it)->loop != NULL && __CPROVER_r_ok((it)->loop, sizeof(cif_loop_tp)) && (it)->loop->container != NULL \
     && __CPROVER_r_ok((it)->loop->container, sizeof(cif_container_tp)) && (it)->loop->container->cif != NULL && __CPROVER_rw_ok((it)->loop->container->cif, sizeof(cif_tp)))
@@ -29,33 +40,36 @@ __CPROVER_ensures((RET == CIF_OK && g_cat_kind != 3) ==> (__CPROVER_is_fresh(*ca
 
 /* remove acts only on the packet most recently delivered; afterwards there is no such packet any more */
 int cif_pktitr_remove_packet(cif_pktitr_tp *iterator)
-__CPROVER_requires(ITER_OK(iterator) && g_sp_depth >= 0 && g_sp_depth < 1000)
+__CPROVER_requires(ITER_OK(iterator) && SQL_ENTRY)
 __CPROVER_assigns(G_SQL, iterator->previous_row_num, iterator->loop->container->cif->remove_packet_stmt, iterator->loop->container->cif->reset_packet_num_stmt)
-__CPROVER_frees(iterator->loop->container->cif->remove_packet_stmt, iterator->loop->container->cif->reset_packet_num_stmt)
 /* refused without touching the database when the iterator is stale or has no current packet */
 __CPROVER_ensures(!OLD(g_tx_open) ==> (RET == CIF_INVALID_HANDLE && g_write_steps == OLD(g_write_steps)))
 __CPROVER_ensures((OLD(g_tx_open) && OLD(iterator->previous_row_num) <= 0) ==> (RET == CIF_MISUSE && g_write_steps == OLD(g_write_steps) && g_saves == OLD(g_saves)))
 /* success: the current packet is gone, for every kind of loop */
-__CPROVER_ensures(RET == CIF_OK ==> (iterator->previous_row_num == -1 && OLD(iterator->previous_row_num) > 0 && g_tx_open && g_sp_depth == OLD(g_sp_depth)))
-/* failure: whatever was written since the call's own savepoint has been rolled back; nothing became durable; the enclosing transaction stays open */
-__CPROVER_ensures(RET != CIF_OK ==> (iterator->previous_row_num == OLD(iterator->previous_row_num) && g_durable_writes == OLD(g_durable_writes)))
-__CPROVER_ensures((RET != CIF_OK && OLD(g_tx_open) && g_saves != OLD(g_saves) && g_write_steps != OLD(g_write_steps)) ==> g_rollback_tos == OLD(g_rollback_tos) + 1)
-__CPROVER_ensures(OLD(g_tx_open) ==> (g_tx_open && g_commits == OLD(g_commits) && g_rollbacks == OLD(g_rollbacks)))
+__CPROVER_ensures(RET == CIF_OK ==> (iterator->previous_row_num == -1 && OLD(iterator->previous_row_num) > 0 && SQL_NESTED_SUCCESS))
+/* failure (C05): the iterator still has its current packet and the database is as it was */
+__CPROVER_ensures(RET != CIF_OK ==> (iterator->previous_row_num == OLD(iterator->previous_row_num) && SQL_UNCHANGED_BY_FAILED_CALL))
+__CPROVER_ensures(g_commits == OLD(g_commits) && g_rollbacks == OLD(g_rollbacks))
 ;
 
 /* update: same guards */
 int cif_pktitr_update_packet(cif_pktitr_tp *iterator, cif_packet_tp *packet)
-__CPROVER_requires(ITER_OK(iterator) && packet != NULL && __CPROVER_r_ok(packet, sizeof(*packet)) && packet->map.head == NULL && g_sp_depth >= 0 && g_sp_depth < 1000)
+/* the packet is empty or has a single entry, and the iterator's name set is empty: the paths that need a populated uthash table are outside this contract */
+__CPROVER_requires(ITER_OK(iterator) && packet != NULL && __CPROVER_r_ok(packet, sizeof(*packet)) && SQL_ENTRY && iterator->name_set == NULL
+    && (packet->map.head == NULL || (__CPROVER_r_ok(packet->map.head, sizeof(struct entry_s)) && packet->map.head->hh.next == NULL)))
 __CPROVER_assigns(G_SQL, iterator->loop->container->cif->update_value_stmt)
-__CPROVER_frees(iterator->loop->container->cif->update_value_stmt)
 __CPROVER_ensures(!OLD(g_tx_open) ==> (RET == CIF_INVALID_HANDLE && g_write_steps == OLD(g_write_steps)))
 __CPROVER_ensures((OLD(g_tx_open) && iterator->previous_row_num <= 0) ==> (RET == CIF_MISUSE && g_write_steps == OLD(g_write_steps) && g_saves == OLD(g_saves)))
-__CPROVER_ensures(OLD(g_tx_open) ==> (g_tx_open && g_commits == OLD(g_commits) && g_rollbacks == OLD(g_rollbacks) && g_durable_writes == OLD(g_durable_writes)))
+__CPROVER_ensures(RET == CIF_OK ==> SQL_NESTED_SUCCESS)
+/* an item that does not belong to the iterator's loop is refused, nothing written */
+__CPROVER_ensures((OLD(g_tx_open) && iterator->previous_row_num > 0 && packet->map.head != NULL) ==> (RET != CIF_OK && g_write_steps == OLD(g_write_steps)))
+__CPROVER_ensures(RET != CIF_OK ==> SQL_UNCHANGED_BY_FAILED_CALL)
+__CPROVER_ensures(g_commits == OLD(g_commits) && g_rollbacks == OLD(g_rollbacks))
 ;
 
 /* close commits (falling back to rollback), abort rolls back; either way the iterator is released and no transaction stays open unless SQLite refuses both */
 int cif_pktitr_close(cif_pktitr_tp *iterator)
-__CPROVER_requires(ITER_OK(iterator) && iterator->item_names == NULL && iterator->name_set == NULL && g_tx_open)
+__CPROVER_requires(ITER_OK(iterator) && iterator->item_names == NULL && iterator->name_set == NULL && g_tx_open && SQL_ENTRY && !g_tx_by_sp)
 __CPROVER_assigns(G_SQL)
 __CPROVER_frees(iterator, iterator->stmt)
 __CPROVER_ensures(g_commits == OLD(g_commits) + 1 && __CPROVER_was_freed(iterator))
@@ -63,7 +77,7 @@ __CPROVER_ensures(RET == CIF_OK ==> (!g_tx_open && g_durable_writes == OLD(g_dur
 __CPROVER_ensures(RET != CIF_OK ==> (RET == CIF_ERROR && g_rollbacks == OLD(g_rollbacks) + 1 && g_durable_writes == OLD(g_durable_writes)))
 ;
 int cif_pktitr_abort(cif_pktitr_tp *iterator)
-__CPROVER_requires(ITER_OK(iterator) && iterator->item_names == NULL && iterator->name_set == NULL && g_tx_open)
+__CPROVER_requires(ITER_OK(iterator) && iterator->item_names == NULL && iterator->name_set == NULL && g_tx_open && SQL_ENTRY && !g_tx_by_sp)
 __CPROVER_assigns(G_SQL)
 __CPROVER_frees(iterator, iterator->stmt)
 __CPROVER_ensures(g_rollbacks == OLD(g_rollbacks) + 1 && g_commits == OLD(g_commits) && g_durable_writes == OLD(g_durable_writes) && __CPROVER_was_freed(iterator))
